@@ -62,6 +62,7 @@ type shadow struct {
 	msg    []byte
 	apx    []byte
 	nonce  [3]byte
+	auth   []byte // the signature / MAC block (the driver fills it as a sealer would)
 	psOff  int
 	isNew  bool // built by NewFrameV1/Reply on a pooled buffer: remainder of the buffer must be zero
 	capHnt int  // capacity of the pooled buffer, learnt from the real frame
@@ -84,9 +85,41 @@ func (s *shadow) layout() []byte {
 	out = append(out, s.sw...)
 	out = append(out, byte(len(s.msg)>>8), byte(len(s.msg)))
 	out = append(out, s.msg...)
-	out = append(out, make([]byte, auth)...)
+	if len(s.auth) == auth {
+		out = append(out, s.auth...)
+	} else {
+		out = append(out, make([]byte, auth)...)
+	}
 	out = append(out, s.apx...)
 	return out
+}
+
+// stampAuth fills the frame's signature / MAC block with random bytes, as sealing would, and remembers them.
+func (w *world) stampAuth(sh *shadow) {
+	n := 64
+	if sh.mt.IsEncrypted() {
+		n = 16
+	}
+	d, err := sh.f.FrameDataWithMargins(0, 0)
+	off := 49 + len(sh.sw) + 2 + len(sh.msg)
+	if err != nil || off+n > len(d) {
+		return
+	}
+	sh.auth = w.randBytes(n)
+	copy(d[off:off+n], sh.auth)
+}
+
+// refusedNew asks the builder for a frame it must refuse (the error path of NewFrameV1): it must leave nothing
+// behind in the pool that a later frame could inherit.
+func (w *world) refusedNew() {
+	switch w.rng.Intn(3) {
+	case 0:
+		_, _ = w.b.NewFrameV1(addr(w), addr(w), frame.RouterPing, nil, nil, nil) // empty message
+	case 1:
+		_, _ = w.b.NewFrameV1(addr(w), addr(w), frame.RouterPing, nil, make([]byte, 10001), nil)
+	default:
+		_, _ = w.b.NewFrameV1(addr(w), addr(w), frame.RouterPing, make([]byte, 300), []byte{1}, nil)
+	}
 }
 
 type world struct {
@@ -276,8 +309,12 @@ func (w *world) exec(a act) {
 			d, _ := f.FrameDataWithMargins(0, 0)
 			copy(sh.nonce[:], d[5:8])
 			sh.capHnt = w.capOf(sh)
+			w.stampAuth(sh)
 			w.slots[a.S] = sh
 		case "parse":
+			if w.rng.Intn(3) == 0 {
+				w.refusedNew()
+			}
 			mt := mts[w.rng.Intn(len(mts))]
 			old := w.margin
 			w.margin = [2]int{12, 16}
@@ -285,6 +322,11 @@ func (w *world) exec(a act) {
 			w.margin = old
 			sh := &shadow{src: addr(w), dst: addr(w), mt: mt, sw: w.randBytes(sw), msg: w.randBytes(msg), apx: w.randBytes(apx), psOff: 12}
 			copy(sh.nonce[:], w.randBytes(3))
+			if mt.IsEncrypted() {
+				sh.auth = w.randBytes(16)
+			} else {
+				sh.auth = w.randBytes(64)
+			}
 			raw := sh.layout()
 			ps := w.b.GetPooledSlice(12 + len(raw) + 16) // as the link reader does
 			copy(ps[12:], raw)
@@ -306,6 +348,7 @@ func (w *world) exec(a act) {
 			cp.sw = append([]byte(nil), src.sw...)
 			cp.msg = append([]byte(nil), src.msg...)
 			cp.apx = append([]byte(nil), src.apx...)
+			cp.auth = append([]byte(nil), src.auth...)
 			w.slots[a.C] = &cp
 		case "reply":
 			sh := w.slots[a.S]
@@ -323,6 +366,8 @@ func (w *world) exec(a act) {
 			copy(sh.nonce[:], d[5:8])
 			sh.isNew = false // a reply keeps its own earlier bytes beyond the new end; not a released frame's
 			sh.capHnt = w.capOf(sh)
+			sh.auth = nil
+			w.stampAuth(sh)
 		case "setapx":
 			sh := w.slots[a.S]
 			d, _ := sh.f.FrameDataWithMargins(0, 0)
